@@ -91,7 +91,10 @@ DKRawKeys ==
    <<"MINIMUM", Num(R_5)>>, <<"Minimum", Num(R_5)>>, <<"Required", Arr(<<Str("zz")>>)>>, <<"$REF", Str("#")>>, <<"ITEMS", Bool(FALSE)>>,
    <<"Enum", EmptyArr>>, <<"CONST", Num(R_1)>>, <<"Not", EmptyObj>>, <<"Properties", Obj([a |-> Bool(FALSE)])>>, <<"AllOf", Arr(<<Bool(FALSE)>>)>>,
    <<"MaxLength", Num(R_0)>>, <<"properties ", Obj([a |-> Bool(FALSE)])>>, <<"$Defs", Obj([x |-> Num(R_5)])>>, <<"Type", Num(R_5)>>,
-   <<"MINIMUM", Str("a")>>, <<"x-vendor", Arr(<<Num(R_1), Null>>)>>, <<"", Num(R_1)>>, <<"U_e1", Bool(TRUE)>>}
+   <<"MINIMUM", Str("a")>>, <<"x-vendor", Arr(<<Num(R_1), Null>>)>>, <<"", Num(R_1)>>, <<"U_e1", Bool(TRUE)>>,
+   \* names that equal a keyword only under Unicode simple case folding ({ls} = U+017F long s, {kelvin} = U+212A)
+   <<"item{ls}", Bool(FALSE)>>, <<"propertie{ls}", Obj([a |-> Bool(FALSE)])>>, <<"minItem{ls}", Num(R_5)>>, <<"$def{ls}", Obj([x |-> Num(R_5)])>>,
+   <<"con{ls}t", Num(R_1)>>, <<"{kelvin}", Num(R_1)>>, <<"maxPropertie{ls}", Num(R_0)>>, <<"{ls}", Null>>}
 DKRaw == {[rawkeys |-> <<[k |-> r[1], v |-> r[2]]>>] : r \in DKRawKeys}
             \cup (IF K >= 2 THEN {[rawkeys |-> <<[k |-> r[1], v |-> r[2]], [k |-> q[1], v |-> q[2]]>>] : r \in DKRawKeys, q \in {<<"TYPE", Str("null")>>, <<"x", Null>>}} \ {[rawkeys |-> <<[k |-> "TYPE", v |-> Str("null")], [k |-> "TYPE", v |-> Str("null")]>>], [rawkeys |-> <<[k |-> "x", v |-> Null], [k |-> "x", v |-> Null]>>]} ELSE {})
 \* decorate the root, or any one subschema
@@ -143,7 +146,15 @@ RDCases == {
   [doc |-> "{\"if\":{},\"then\":false,\"else\":{\"not\":{}}}", norm |-> "{\"if\":true,\"then\":false,\"else\":false}"],
   [doc |-> "{\"$schema\":\"https://json-schema.org/draft/2020-12/schema\",\"$id\":\"http://h/x\",\"$anchor\":\"a\",\"$comment\":\"c\"}", norm |-> "{\"$schema\":\"https://json-schema.org/draft/2020-12/schema\",\"$id\":\"http://h/x\",\"$anchor\":\"a\",\"$comment\":\"c\"}"],
   [doc |-> "{\"minContains\":0,\"contains\":{\"const\":null}}", norm |-> "{\"minContains\":0,\"contains\":{\"const\":null}}"],
-  [doc |-> "{\"title\":\"\",\"description\":\"\",\"format\":\"\"}", norm |-> "true"]}
+  [doc |-> "{\"title\":\"\",\"description\":\"\",\"format\":\"\"}", norm |-> "true"],
+  \* unknown keywords are kept verbatim, whatever they resemble (letter case, Unicode case folding)
+  [doc |-> "{\"Type\":\"string\"}", norm |-> "{\"Type\":\"string\"}"],
+  [doc |-> "{\"ITEMS\":false,\"items\":true}", norm |-> "{\"ITEMS\":false,\"items\":true}"],
+  [doc |-> "{\"item\\u017f\":{\"type\":\"string\"}}", norm |-> "{\"item\\u017f\":{\"type\":\"string\"}}"],
+  [doc |-> "{\"minItem\\u017f\":3}", norm |-> "{\"minItem\\u017f\":3}"],
+  [doc |-> "{\"$def\\u017f\":{\"a\":{}},\"propertie\\u017f\":{\"a\":false}}", norm |-> "{\"$def\\u017f\":{\"a\":{}},\"propertie\\u017f\":{\"a\":false}}"],
+  [doc |-> "{\"\\u212a\":1,\"\\u017f\":[null]}", norm |-> "{\"\\u212a\":1,\"\\u017f\":[null]}"],
+  [doc |-> "{\"properties\":{\"a\":{\"enu\\u1e9e\":[],\"con\\u017ft\":1}}}", norm |-> "{\"properties\":{\"a\":{\"enu\\u1e9e\":[],\"con\\u017ft\":1}}}"]}
 
 Cases == CASE Family = "PO" -> POCases
            [] Family = "RD" -> RDCases
